@@ -195,6 +195,9 @@ def m2(prog, ctx):
     else:
         lp, c = filed[0]
         gs = [g for g in flow.guards_of(c, stop=lp)]
+        # a test whose other outcome RAISES does not leave a record unwritten: the run stops there
+        raising = [i_.test for i_ in ast.walk(lp) if isinstance(i_, ast.If) and i_.body and isinstance(i_.body[-1], ast.Raise)]
+        gs = [g for g in gs if not (g.kind == "early-exit" and any(g.test is t_ for t_ in raising))]
         if gs:
             ctx.fail("M2", c, rm._qualname, src(c), "an alignment of a resolved read is written to its chromosome's verdict file only if %s: the "
                      "chromosome task that holds an unwritten (losing) alignment finds no verdict for it" % " and ".join(g.text() for g in gs))
